@@ -696,6 +696,14 @@ impl NetcodeServer {
     }
 }
 
+/// Verification hooks: read-only view of the half-open sessions.
+#[cfg(feature = "verif")]
+impl NetcodeServer {
+    pub fn verif_pending_addrs(&self) -> Vec<SocketAddr> {
+        self.pending_clients.keys().copied().collect()
+    }
+}
+
 fn find_client_mut_by_id(clients: &mut [Option<Connection>], client_id: u64) -> Option<&mut Connection> {
     clients.iter_mut().flatten().find(|c| c.client_id == client_id)
 }
